@@ -145,6 +145,25 @@ fn multiset_space(ctx: &Ctx, k: usize) {
                         sep = sep.min(cabs(csub(roots[i], roots[j])));
                     }
                 }
+                // multiplicities: every distinct root that is at least 1/2 away from every other distinct root is returned exactly as often
+                // as it occurs (values within 0.2 of it: a cluster of multiplicity m spreads by eps^(1/m), 0.04 for m = 11) - a multiple
+                // root must not swallow a simple one. Polished values only (refined, or the always polished cubic)
+                if refine || roots.len() == 3 {
+                    let mut distinct: Vec<(C, usize)> = vec![];
+                    for &t in roots.iter() {
+                        match distinct.iter_mut().find(|d| d.0 == t) {
+                            Some(d) => d.1 += 1,
+                            None => distinct.push((t, 1)),
+                        }
+                    }
+                    for &(t, mult) in distinct.iter() {
+                        if distinct.iter().all(|d| d.0 == t || cabs(csub(d.0, t)) >= 0.5) {
+                            let near = got.iter().filter(|g| cabs(csub(**g, t)) <= 0.2).count();
+                            local.hit("multiplicity of a separated root checked");
+                            ensure!(near == mult, "the root {:?} of multiplicity {} is returned {} times; returned {:?}", t, mult, near, got);
+                        }
+                    }
+                }
                 if refine && sep >= 0.5 {
                     local.hit("matched against the true roots");
                     let mut used = vec![false; got.len()];
@@ -470,8 +489,35 @@ fn clustered_space(ctx: &Ctx) {
                 let g = run_cmplx(&cc, refine);
                 judge_roots(&cc, &g, refine, false, &mut local, "clustered")?;
                 let gr: Vec<C> = Polynomial::<f64>::new(c.clone()).roots(refine).vec.iter().map(|z| (z.real, z.imag)).collect();
-                judge_roots(&cc, &gr, refine, false, &mut local, "clustered (f64 entry)")
+                judge_roots(&cc, &gr, refine, false, &mut local, "clustered (f64 entry)")?;
+                // a cluster of SIMPLE roots that f64 can resolve: each member is returned exactly once (polished values)
+                if (refine || roots.len() == 3) && w > 0.0 && sh != 1 {
+                    // resolvable: a perturbation of 100 rounding errors of Horner's rule moves each member by less than w / 16
+                    let mut all: Vec<C> = roots.iter().map(|t| (*t, 0.0)).collect();
+                    if sh == 5 {
+                        all.push((0.0, 1.0));
+                        all.push((0.0, -1.0));
+                    }
+                    let resolvable = roots.iter().all(|&t| {
+                        let sum: f64 = c.iter().enumerate().map(|(k, a)| a.abs() * t.abs().powi(k as i32)).sum();
+                        let dp: f64 = lead.abs() * all.iter().filter(|z| **z != (t, 0.0)).map(|z| cabs(csub(*z, (t, 0.0)))).product::<f64>();
+                        100.0 * f64::EPSILON * sum / dp <= w / 16.0
+                    });
+                    if resolvable {
+                        local.nontriv("resolvable cluster matched one-to-one");
+                        for got in [&g, &gr] {
+                            for &t in roots.iter() {
+                                let near = got.iter().filter(|z| cabs(csub(**z, (t, 0.0))) <= 0.25 * w).count();
+                                ensure!(near == 1, "the simple root {} of a cluster of width {} is returned {} times; returned {:?}", t, w, near, got);
+                            }
+                        }
+                    }
+                }
+                Ok(())
             });
+            for (k2, v) in std::mem::take(&mut local.hits) {
+                *acc.hits.entry(k2).or_insert(0) += v;
+            }
             acc.merge_worst(local);
             match res {
                 Ok(Ok(())) => {}
